@@ -422,9 +422,16 @@ func runChf(line string, t []string) string {
 		store.putDelay = time.Duration(ms) * time.Millisecond
 		store.mu.Unlock()
 		return "ok"
+	case "outage":
+		// the account-balance / rating server becomes unreachable (down: dial error; silent: no answer) or reachable again
+		if len(t) != 3 || !setOutage(t[1], t[2]) {
+			return "bad-op"
+		}
+		return "ok"
 	case "reset":
-		// a fresh world: subscribers, accounts, sequence numbers
+		// a fresh world: subscribers, accounts, sequence numbers; every server reachable
 		cleanupCdrFiles()
+		clearOutages()
 		self := chf_context.GetSelf()
 		self.UePool.Range(func(k, v interface{}) bool { self.UePool.Delete(k); return true })
 		// zero the sequence counters by name (reflection: the harness must keep building when a
@@ -517,6 +524,10 @@ func genChf(o genOpts, w *bufio.Writer) {
 		gen(o, w) // generator variants that live in files of their own (chf_events.go, ...)
 		return
 	}
+	if o.mode == "comply" {
+		genChfComply(o, w)
+		return
+	}
 	r := &rng{s: o.seed}
 	lsn := 0
 	// the generator mirrors the session id rule (supi+nf+counter) only to address requests; the real
@@ -593,12 +604,16 @@ func genChf(o genOpts, w *bufio.Writer) {
 			for _, rg := range rgs {
 				bal := r.pick(0, 1, 50, 150, 199, 200, 201, 999, 1000, 5000, 100000) * r.pick(1, 1, cost)
 				if huge {
-					bal = 12000000000
+					// mostly more money than any request needs; sometimes less than one requested quota, above 2^24 and not round
+					bal = r.pick(12000000000, 12000000000, 12000000000, 33554431, 50000001, 1234567891, 3999999999)
 				}
 				costStr := strconv.Itoa(cost)
 				if o.mode == "costs" {
 					// stored tariffs of every shape: the CHF and the rating server must decode them alike
 					costStr = r.pickStr("0", "", "abc", "0.0", "0.5", "1e3", "1.5", "2", "3", "10", "007", "4294967296", "-1", "1.", ".5", " 2")
+					if r.chance(50) {
+						costStr = genTariffText(r)
+					}
 				}
 				fmt.Fprintf(w, "chf acct %s %d %s %s\n", hexOf([]byte(supi)), rg, hexOf([]byte(strconv.Itoa(bal))), hexOf([]byte(costStr)))
 			}
@@ -618,10 +633,14 @@ func genChf(o genOpts, w *bufio.Writer) {
 			}
 		}
 		steps := 6 + r.intn(10)
+		var outages outageGen
 		for i := 0; i < steps && done < o.n; i++ {
 			s := sess[r.intn(len(sess))]
 			if !s.live {
 				continue
+			}
+			if o.mode == "" {
+				outages.step(r, o, w)
 			}
 			var usages []string
 			nrg := 1 + r.intn(2)
@@ -653,6 +672,8 @@ func genChf(o genOpts, w *bufio.Writer) {
 				if r.chance(8) {
 					qmi = 2
 				}
+				// every mix of quota-management indicators (absent, online, offline, suspended) within one usage
+				mixed := r.chance(15)
 				if huge {
 					req = r.pick(100, 1000000000, 1500000000, 2000000000)
 					switch r.intn(4) {
@@ -670,7 +691,7 @@ func genChf(o genOpts, w *bufio.Writer) {
 				}
 				// the report spread over one to three containers
 				nc := 1
-				if r.chance(25) {
+				if r.chance(25) || mixed {
 					nc = 2 + r.intn(2)
 				}
 				var conts []string
@@ -682,7 +703,15 @@ func genChf(o genOpts, w *bufio.Writer) {
 					}
 					left -= part
 					lsn++
-					conts = append(conts, fmt.Sprintf("%d %d %d %d %d %d", qmi, part, part/2, part-part/2, r.intn(3), lsn))
+					q := qmi
+					if mixed {
+						// a container that is not online carries a volume of its own (it is not part of the rated usage)
+						if q = r.intn(4); q != 1 {
+							left += part
+							part = r.pick(0, 1, 7, 50, lg)
+						}
+					}
+					conts = append(conts, fmt.Sprintf("%d %d %d %d %d %d", q, part, part/2, part-part/2, r.intn(3), lsn))
 				}
 				usages = append(usages, fmt.Sprintf("%d %s %s %d %s", rg, reqTok, hexOf([]byte("upf1")), nc, strings.Join(conts, " ")))
 				s.lastGrant[rg] = req
@@ -739,7 +768,7 @@ func genChf(o genOpts, w *bufio.Writer) {
 			}
 			if o.mode == "costs" && r.chance(15) {
 				fmt.Fprintf(w, "chf acct %s %d %s %s\n", hexOf([]byte(s.supi)), rgs[r.intn(2)], hexOf([]byte(strconv.Itoa(r.pick(500, 5000, 100000)))),
-					hexOf([]byte(r.pickStr("0", "", "abc", "0.5", "1.5", "2", "3", "5", "10", "007", "4294967296", "1."))))
+					hexOf([]byte(r.pickStr("0", "", "abc", "0.5", "1.5", "2", "3", "5", "10", "007", "4294967296", "1.", genTariffText(r)))))
 			}
 			if r.chance(6) {
 				fmt.Fprintf(w, "chf credit %s %d %d\n", hexOf([]byte(s.supi)), rgs[r.intn(2)], r.pick(100, 1000, 5000))
